@@ -8,22 +8,22 @@ ENUMX = "bounded-exhaustive enumeration of an explicit finite input family again
 # id -> (engine, technique, text, note, design section)
 CLAIMED = {
  "C04": ("smx", SMX,
-         "Every script of the flow alphabet (outcome class incl. HTTP error with X-Retry-After and a stored poll interval, response app list, per-app status, policy, plan, per-app installer result, reboot answers; one-shot and continuous mode), a dedicated product over three apps each offered or not in every order, two consecutive checks within a deviation bound, and a CUP part with forgeries are executed on the real state machine and judged by a reference written from the statement, including the only-if directions.",
-         "Bounded to <=3 apps, response lists without repeated ids, at most two consecutive checks; harness traits, futures-channel and serde_json are trusted.", "3/C04"),
+         "Every script of the flow alphabet (outcome class incl. HTTP error with X-Retry-After, a parsed / unparseable answer after one or two failed attempts, a stored poll interval; response app list, per-app status, policy, plan, per-app installer result, reboot answers; one-shot and continuous mode), a product over three apps each offered or not in every order, two and three consecutive checks within a deviation bound, a reboot wait with 0-3/4 pings of 5 answer kinds, and a CUP part with forgeries are executed on the real state machine and judged by a reference written from the statement, including the only-if directions; the same reference also judges every completed check of the C11 schedule exploration (all operations blocking, control request at every step, both select! orders) and of the C08 history exploration (15 check classes, pings, restarts).",
+         "Bounded to <=3 apps, response lists without repeated ids, at most three consecutive checks; harness traits, futures-channel and serde_json are trusted.", "3/C04"),
  "C06": ("smx", SMX,
-         "Every word of per-attempt outcomes (17-letter alphabet incl. transport/timeout/caller error, status classes with and without X-Retry-After, unauthenticated answers with success and error statuses, unparseable) the flow consumes, x stored poll interval x CUP x every jitter draw of a boundary menu x delivery outcome of every event report, plus pings in the reboot wait, is executed; the reference decides which attempts may exist, the exact back-off duration from the injected draw, id freshness and metric accounting.",
+         "Every word of per-attempt outcomes (17-letter alphabet incl. transport/timeout/caller error, status classes with and without X-Retry-After, unauthenticated answers with success and error statuses, unparseable) the flow consumes, x stored poll interval {none, 3600 s, 88 s = the value one answer repeats} x CUP x every jitter draw of a boundary menu x delivery outcome of every event report, plus pings in the reboot wait, is executed; the reference decides which attempts may exist, the exact back-off duration from the injected draw, id freshness and metric accounting.",
          "Jitter draw owned through the verif_hooks seam: the draw must come from rand::random::<u64>() in state_machine.rs; words longer than 3 would themselves be violations; one app.", "3/C06"),
  "C10": ("smx", SMX,
-         "Every reporting path (unparseable, plan error, deferred, denied, install with every per-app result vector) for every app-set order, response list (incl. unknown id, manifest version present/absent) and every delivery outcome of each individual report is executed and compared with a reference report list; each faulty execution is also compared with the all-delivered run of the same script (outcome independence).",
+         "Every reporting path (unparseable, plan error, deferred, denied, install with every per-app result vector) for 0-2 failed update-check attempts before the answered one, every app-set order, response list (incl. unknown id, manifest version present/absent) and every delivery outcome of each individual report is executed and compared with a reference report list (same session for all attempts and reports, a fresh request id for each); each faulty execution is also compared with the all-delivered run of the same script (outcome independence).",
          "<=3 apps; zero-app reports and the lost-metric count of multi-app template reports are treated as unspecified; download_time_ms not compared.", "3/C10"),
  "C16": ("enumx", ENUMX,
-         "An independent generator of the response grammar enumerates every document within 4 (quick) / 5 (thorough) departures from a typical document over all optional fields, counts, status strings, size boundaries, daystart shapes and extension payloads, and the parsed value is compared field by field with what the generator wrote; every required field is removed and every typed field given every wrong JSON type; every prefix and single-bit flip of seed documents, every short token string, near-misses of the XSSI prefix and nesting depths to 100000 (child process) are parsed for totality.",
+         "An independent generator of the response grammar enumerates every document within 4 (quick) / 5 (thorough) departures from a typical document over all optional fields (absent / empty / plain / needing escapes), counts, 7 status strings, size boundaries, daystart shapes, extension payloads and 6 spellings of the same document (compact, string values or keys as \\uXXXX escapes, first character only, escaped solidus, pretty-printed), and the parsed value is compared field by field with what the generator wrote; every required field is removed and every typed field given every wrong JSON type; every prefix and single-bit flip of seed documents, every short token string, near-misses of the XSSI prefix, dense runs of 2-/3-/4-byte characters at every byte alignment in 8 accepted / rejected document shapes, and nesting depths to 100000 (child process) are parsed for totality.",
          "Documents further than the deviation bound from the typical document, and byte strings outside the listed families, are not reached; serde_json is trusted for JSON syntax.", "3/C16"),
  "C19": ("enumx", ENUMX,
-         "Complete enumeration of the microsecond boundary family (~11k values) and of the nanosecond neighbourhood of each (2003 offsets each in thorough = 20.8 M instants), pushed through to-micros, from-micros, storage set/get and the truncation helper and compared with an integer-only reference; component algebra and after-or-equal-any over all shapes x order relations.",
+         "Complete enumeration of the microsecond boundary family (~11k values) and of the nanosecond neighbourhood of each (15 offsets quick, 20003 offsets thorough = 208 M instants), pushed through to-micros, from-micros, storage set/get and the truncation helper and compared with an integer-only reference; component algebra (add, subtract with sub-microsecond durations, complete-with, destructure) and after-or-equal-any over all shapes x order relations.",
          "Instants far from powers of 2/10 and the epoch are not reached; platform SystemTime/Instant trusted.", "3/C19"),
  "C20": ("enumx", ENUMX,
-         "Every string over an 8-symbol alphabet up to length 7 (quick) / 8 (thorough), every tuple of 0-6 boundary parts, and all 5.7 M ordered pairs of 2401 boundary versions are judged by an independent 15-line parser / numeric tuple order, including print, parse(print), serde and array conversions.",
+         "Every string over an 8-symbol alphabet up to length 8 (quick) / 9 (thorough), every tuple of 0-6 boundary parts, and all 5.7 M ordered pairs of 2401 boundary versions are judged by an independent 15-line parser / numeric tuple order, including print, parse(print), array conversions and JSON (de)serialisation through four doors (from_str, an escaped spelling, an owned Value, a reader).",
          "Strings outside the alphabet/length bound are not reached; a leading '+' on a part is treated as unspecified.", "3/C20"),
  "C01": ("enumx", ENUMX,
          "For every seed exchange of a finite configuration family (key sets, key used, ids incl. 1 and 2^64-1, four request bodies, three response bodies, three nonces) an independent signer (own digest composition) produces the ETag; the real verifier must accept exactly the 6 encodings and must reject every single-bit flip of response, request, nonce, key id, signature and hash, ~60 structural mutants per seed and every single-byte substitution of the ETag; every string up to length 6/7 over an 8-symbol alphabet is fed as ETag for totality.",
@@ -32,40 +32,40 @@ CLAIMED = {
          "Every builder operation sequence up to length 3/4 (all 16 parameter/config combinations) and 4/5 (one combination) over 18 operations on 4 app values (two sharing an id) is built twice and compared - method, URI, headers, JSON body with exact array order - with an independent encoder folding the operation history; every event type x result x error code x optional-field subset is encoded and compared with a literal code table.",
          "Extra-field keys colliding with protocol attributes are not generated; longer sequences are not reached.", "3/C15"),
  "C07": ("smx", SMX,
-         "Every X-Retry-After string over a 10-symbol alphabet (digits, signs, blanks, letter, dot, 0xff) up to length 4/5, a numeric boundary family with leading zeros, duplicates and name-case variants, for statuses 200/500 and with/without a stored interval, is sent through one real check and the value announced, committed and presented by a rebuilt state machine is compared with an independent reading (plain decimal u64, capped at 86400 s); every assignment of {7 s, 99999 s, no header, no response, forged+header} to the exchanges update check / 3 event reports / 2 pings is executed with announcement-and-commit-before-continuing and a rebuilt machine checked after every exchange.",
+         "Every X-Retry-After string over a 10-symbol alphabet (digits, signs, blanks, letter, dot, 0xff) up to length 5/6, a numeric boundary family with leading zeros, duplicates and name-case variants, for statuses 200/500 and with/without a stored interval, is sent through one real check and the value announced, committed and presented by a rebuilt state machine is compared with an independent reading (plain decimal u64, capped at 86400 s); every assignment of {7 s, 99999 s, no header, no response, forged+header} to the exchanges update check / 3 event reports / 2 pings is executed with announcement-and-commit-before-continuing and a rebuilt machine checked after every exchange; and every history of the C08 harness (15 check classes incl. retries and failures with and without an answer, pings, restarts; length 3/4) is judged at every commit: a machine rebuilt on the committed storage presents the interval in force at that commit.",
          "Leading '+' and conflicting duplicate headers treated as unspecified; header strings beyond the alphabet/length bound not reached.", "3/C07"),
  "C08": ("smx", SMX,
-         "One-shot checks of every class (durability when the stream ends) and every history up to length 3/4 over 13 check outcome classes (incl. three whose event-report answers dictate a poll interval, i.e. commits in the middle of a check), 4 ping outcomes and end-of-wait inside the reboot wait, and restart (CUP on/off, plus a construction-failure configuration) runs on the real state machine with a clock that is never microsecond aligned; the reference (failures since last success; last contact only on answered checks / successful pings) is compared with the announcements and the next policy call, and after EVERY storage commit a fresh state machine is built on the surviving snapshot: it must present the values before or after the current step, never a mixture, and the values after once the step has finished.",
+         "One-shot checks of every class (durability when the stream ends) and histories over 15 check outcome classes (incl. three whose event-report answers dictate a poll interval, i.e. commits in the middle of a check, and two that are answered only after failed attempts), 4 ping outcomes and end-of-wait inside the reboot wait, and restart (CUP on/off, plus a construction-failure configuration) - every history up to length 3/4 and longer ones (5-8 steps) within 2-3 departures from the default step - run on the real state machine with a clock that is never microsecond aligned; the reference (failures since last success; last contact = a time between the sending of the request that was answered and the result, only on answered checks / successful pings) is compared with the announcements and the next policy call, and after EVERY storage commit a fresh state machine is built on the surviving snapshot: it must present the values before or after the current step, never a mixture, and the values after once the step has finished.",
          "Crash = loss of exactly the uncommitted writes (atomic commit contract); histories longer than the bound not reached; 'failed check' = Err result.", "3/C08"),
  "C09": ("smx", SMX,
-         "Histories of checks (incl. install + reboot wait), failed checks (transport, unparseable, forged body carrying cohorts), pings, end of wait and restarts with every subset of embedder presets run on the real state machine for app sets of 1-3 apps; responses name sub-lists/orders of the set incl. an unknown id with each cohort field present/empty/absent and daystart present/absent/without days; after every step the reference app table is compared with the next policy call, with the cohort fields and ping dates of every request sent, with what a machine rebuilt (without presets) on the committed storage restores, and - for every commit inside a successful check or ping - with the requirement that the rebuilt machine sees contact time and app data of the same side of the step.",
+         "Histories of checks (incl. install + reboot wait, 0-2 failed attempts before the answer, named apps with no-update / error / restricted status or no update-check element), failed checks (transport, unparseable, forged body carrying cohorts), pings, end of wait and restarts with every subset of embedder presets run on the real state machine for app sets of 1-3 apps, against a server that sends cohort fields (each present/empty/absent) or never sends any; responses name sub-lists/orders of the set incl. an unknown id, daystart present/absent/without days; after every step the reference app table is compared with the next policy call, with the cohort fields and ping dates of every request sent, with what a machine rebuilt (without presets) on the committed storage restores, and - for every commit inside a successful check or ping - with the requirement that the rebuilt machine sees contact time and app data of the same side of the step.",
          "Step kinds exhaustive, field choices deviation-bounded (see evidence); duplicate app ids in one response not generated.", "3/C09"),
  "C18": ("smx", SMX,
-         "Histories of install attempts (plan id, offered apps, per-app results, manifest version present or not), plan failures, idle iterations and restarts (on the target or another version; consistent clocks, wall clock behind until a later loop, monotonic clock racing ahead) run on the real state machine; the reference tracks first-seen per plan, consecutive failed installs and the durable reboot record; metrics are compared (attempt counts exactly, durations against clock windows), and after every clean install the storage surviving a crash at the first reboot question is rebuilt on the target version and must report exactly one waited-for-reboot metric.",
+         "Histories of install attempts (plan id, offered apps, per-app results, manifest version present or not), plan failures, idle iterations and restarts (on the target or another version; consistent clocks, wall clock behind until a later loop, monotonic clock racing ahead) run on the real state machine; the reference tracks first-seen per plan, consecutive failed installs and the durable reboot record; metrics are compared (attempt counts exactly, durations against clock windows); two crash points per attempt: the storage surviving a crash while the installer runs is rebuilt, offered the same plan an hour later and must measure from the first sighting, and after every clean install the storage surviving a crash at the first reboot question is rebuilt on the target version and must report exactly one waited-for-reboot metric.",
          "Two apps, system app first; durations checked against windows of non-overlapping steps; a record overwritten while an older one is still pending is treated as unspecified.", "3/C18"),
  "C02": ("smx", SMX,
-         "The real StandardCupv2Handler runs inside the real state machine and the harness is the (independent) signer: 7 forgery kinds (no/garbage ETag, signature over another body, unregistered key, registered key under the wrong id, replay of every earlier genuine response incl. across a restart, ETag of the sibling request) x 6 payloads (offer, cohort/daystart change, X-Retry-After, error statuses) are injected at update-check attempt 1 and 2, at every event report of five reporting paths and at a reboot-wait ping; update-check forgeries are judged by explicit negatives on events, requests, installer/policy calls, the next policy call and a machine rebuilt on the committed storage; report and ping forgeries must leave a log identical to the transport-failure run of the same script.",
-         "One app; forged position x kind x payload enumerated one forgery per history.", "3/C02"),
+         "The real StandardCupv2Handler runs inside the real state machine and the harness is the (independent) signer: 7 forgery kinds (no/garbage ETag, signature over another body, unregistered key, registered key under the wrong id, replay of every earlier genuine response incl. across a restart, ETag of the sibling request) x 6 payloads (offer, cohort/daystart change, X-Retry-After, error statuses) are injected at update-check attempt 1 and 2, at every event report of five reporting paths and at a reboot-wait ping, and inside histories of 2-4 earlier steps drawn from {genuine check with / without poll interval, installed update, forged update check, install with a forged report, restart, failed check}; update-check forgeries are judged by explicit negatives on events, requests, installer/policy calls, the next policy call and a machine rebuilt on the committed storage; report and ping forgeries must leave a log identical to the transport-failure run of the same script.",
+         "One app; in the history part step classes are exhaustive and forgery kind / payload / position are deviation-bounded.", "3/C02"),
  "C03": ("smx", SMX,
-         "Every service URL of a grammar (2 schemes x 7 authorities incl. IPv6 literals, zone id and userinfo x 5 paths x 5 queries) x 3 key sets x 2 id assignments x 3 request contents is built twice through the real RequestBuilder + StandardCupv2Handler and the wire URI, retained body, key id and nonce compared with an independent string-level expectation; all nonces of the whole enumeration must be pairwise distinct; in continuous-mode histories (failed attempts, install with three reports, ping, reboot, restart, further check) every wire request and the metadata/bytes handed to the installer are checked.",
+         "Every service URL of a grammar (2 schemes x 7 authorities incl. IPv6 literals, zone id and userinfo x 5 paths x 5 queries incl. a bare '?') x 3 key sets x 2 id assignments x 3 request contents is built twice through the real RequestBuilder + StandardCupv2Handler and the wire URI, retained body, key id and nonce compared with an independent string-level expectation; all nonces of the whole enumeration must be pairwise distinct; in continuous-mode histories (fixed shape; every menu history of 4/5 steps over 9 step kinds; every C08 history that runs with CUP) every wire request is decorated with one fresh cup2key and the metadata/bytes handed to the installer belong to the answered request.",
          "Nonce unpredictability is not observable (distinctness only); http::Uri decides which URLs are well-formed.", "3/C03"),
  "C14": ("smx", SMX,
-         "On five base scripts run on the real state machine with overflow checks on (two parts additionally with a tracing subscriber that formats every log event): every single failing storage write, every pair, all-of-a-kind, all-on-a-key and everything (differential: events and wire requests equal the healthy run); every protocol key and the app JSON preset to each of 13 extreme / mistyped values (singles, and all pairs in thorough); a wall-clock jump from a 7-entry menu before any clock read (<=1/2 per run); every truncation and single-bit flip of 4 response documents, every status 100-599 x 6 header sets x CUP, and 62 service URL strings through the one-shot flow; each check must end with a delivered result and nothing may unwind.",
+         "On five base scripts run on the real state machine with overflow checks on (two parts additionally with a tracing subscriber that formats every log event): every single failing storage write, every pair (and triple in thorough), all-of-a-kind, all-on-a-key and everything (differential: events and wire requests equal the healthy run); every protocol key and the app JSON preset to each of 13 extreme / mistyped values (singles, and all pairs in thorough); wall-clock jumps from a 7-entry menu before any clock read (<=2/3 per run); every truncation and single-bit flip of 5 response documents (one full of multi-byte characters), every status 100-599 x 6 header sets x CUP, and 62 service URL strings through the one-shot flow; each check must end with a delivered result and nothing may unwind.",
          "Installer/policy answers are contract-conforming; log formatting is exercised in the two with-logging parts only; inputs outside the listed families are not reached.", "3/C14"),
  "C11": ("smx", SMX,
-         "The real state machine runs with every environment operation blocking (timers, HTTP, plan, install, progress, reboot) and the select! branch order owned by the explorer; clients issue 1-2 requests whose injection step is enumerated exhaustively over the horizon, combined with bounded non-default scheduling / select-order choices and all environment scripts (throttled, no update, install + reboot wait with the reboot refused once or twice); after a default-schedule drain every request must have exactly one reply, and each reply is matched against the policy call log (Started/Throttled need a distinct decision with the request's options and that answer between send and reply; AlreadyRunning needs an overlapping busy interval; on-demand upgrades of the reboot question need an on-demand request, and once an on-demand request was accepted for a check every later reboot question of it must be on-demand); dropping all handles / the stream at every step is explored separately.",
-         "Same-thread use of ControlHandle; horizon 40/50 steps; deviation bound 1-3 on scheduling choices other than the injection step.", "3/C11"),
+         "The real state machine runs with every environment operation blocking (timers incl. the back-off wait of a retry, HTTP, plan, install, progress, reboot) and the select! branch order owned by the explorer; clients issue 1-3 requests whose injection step is enumerated exhaustively over the horizon, combined with bounded non-default scheduling / select-order choices and all environment scripts (throttled, no update, install + reboot wait with the reboot refused once or twice, first attempt failing); after a default-schedule drain every request must have exactly one reply, and each reply is matched against the policy call log (Started/Throttled need a distinct decision with the request's options and that answer between send and reply; AlreadyRunning needs an overlapping busy interval; on-demand upgrades of the reboot question need an on-demand request, and once accepted every later reboot question of the check must be on-demand); requests are answered although no timer fires; every request of a check carries the policy's parameters and emissions precede the code after them; dropping all handles / the stream at every step is explored separately.",
+         "Same-thread use of ControlHandle; horizon 40/50 steps; deviation bound 0-3 on scheduling choices other than the injection step.", "3/C11"),
  "C12": ("smx", SMX,
-         "Timers are pending operations fired by the explorer in every order and subset (bounded non-default scheduling choices) for all timing shapes (wall / monotonic / both) x minimum wait (none, 7 s, 0 s) x policy answers (allowed / too soon) x optional control request over 2-3 loop iterations, and in the reboot wait with the reboot refused once or twice and control requests (scheduled; on-demand then scheduled) arriving at any point; log invariants: one timing question per wait, announced unchanged, exactly the timers it prescribes, an unrequested decision or ping only after all of them fired (and it does begin once they have), the reboot question re-asked only when justified by a firing of its 30-minute timer or by one not yet answered on-demand request.",
-         "Timer completion = flag + waker call by the harness; deviation bound 2/3.", "3/C12"),
+         "Timers are pending operations fired by the explorer in every order and subset (bounded non-default scheduling choices) for all timing shapes (wall / monotonic / both) x minimum wait (none, 7 s, 0 s) x policy answers (allowed / too soon) x optional control request over 3 loop iterations, and in the reboot wait with the reboot refused once or twice and control requests (scheduled; on-demand then scheduled) arriving at any point; the same oracle also judges the C11 schedule exploration; log invariants: one timing question per wait, announced unchanged, exactly the timers it prescribes, an unrequested decision or ping only after all of them fired (and it does begin once they have), the reboot question re-asked only when justified by a firing of its 30-minute timer or by one not yet answered on-demand request.",
+         "Timer completion = flag + waker call by the harness; deviation bound 3/4.", "3/C12"),
  "C05": ("smx", SMX,
-         "Histories of 2-3 loop iterations, each triggered by timers / a scheduled request / an on-demand request (exhaustive), with bounded non-default environment answers among 19 check decisions (both positive kinds x all parameter combinations, three negatives), server answers incl. retries and updates for one or both of two apps, 3 install decisions, plan errors, independent per-app install results, reboot-needed and five reboot-allowed sequences (incl. accepted and refused on-demand requests and a scheduled request during the wait) run on the real state machine; invariants over the single call log: every wire request inside an allowed check and carrying exactly the returned parameters (event reports included), installer only after approval of that very plan, reboot only after a clean install + needed + most recent 'yes', on-demand reboot question only with an on-demand source; every invalid app set must end the stream with zero environment calls.",
+         "Histories of 2-3 loop iterations, each triggered by timers / a scheduled request / an on-demand request (exhaustive), with bounded non-default environment answers among 19 check decisions (both positive kinds x all parameter combinations, three negatives), server answers incl. retries and updates for one or both of two apps, 3 install decisions, plan errors, independent per-app install results, reboot-needed and five reboot-allowed sequences run on the real state machine; the same invariants also judge the C11 schedule exploration (control request at every step of a blocked check) and every C08 history; invariants over the single call log: every wire request inside an allowed check and carrying exactly the returned parameters (event reports included, whatever requests arrive meanwhile), installer only after approval of that very plan, reboot only after a clean install + needed + most recent 'yes', on-demand reboot question only with an on-demand source; every invalid app set must end the stream with zero environment calls.",
          "Deviation bound 3/4 on environment answers; one-shot path bypasses the check decision by design.", "3/C05"),
  "C13": ("smx", SMX,
-         "(generator) every program over 8 operations up to length 4-6 runs on the real async_generator for 5 adaptors under a controlled executor: poll-when-woken plus bounded deviations (spurious polls, other completion orders, early drop) and extra polls after the end; the received sequence must equal the reference (each item once, in order, one completion, then end, is_terminated consistent), the next program step may start only after the consumer took the yielded items, every completion must wake the task, no deadlock; (state machine) update + install with 0-3 progress values, all operations blocking, delayed and spurious consumer polls: the installer either awaits every acknowledgement or reports its last value and finishes in the same poll: progress in order and complete before the outcome, request / installer / reboot only after the consumer took the corresponding state event, acknowledgement only after receipt, no lost wake-up, no deadlock.",
+         "(generator) every program over 8 operations up to length 4-6 runs on the real async_generator for 5 adaptors under a controlled executor, with the producer future polled once per poll or re-polled once / twice while pending (as a select!/join! loop does): poll-when-woken plus bounded deviations (spurious polls, other completion orders, early drop) and extra polls after the end; the received sequence must equal the reference (each item once, in order, one completion, then end, is_terminated consistent), the next program step may start only after the consumer took the yielded items, every completion must wake the task, no deadlock; (state machine) the C11 schedule exploration with a control request at every step: first request only after CheckingForUpdates was taken, installer only after InstallingUpdate, reboot only after WaitingForReboot; update + install with 0-3 progress values, all operations blocking, delayed and spurious consumer polls, installer awaiting every acknowledgement or finishing in the same poll as its last value: progress in order and complete before the outcome, no lost wake-up, no deadlock.",
          "Consumer modelled as a `while let Some(..) = next().await` loop; deviation bounds as in the evidence.", "3/C13"),
  "C17": ("smx", SMX,
-         "Requests built by the client library (1-3 apps in every order, 5 service URLs with paths and queries, 4 key configurations x 0-2 server historical keys, parameters, cohorts, update-check and 4 event request kinds, 5 configured response kinds per app; deviation-bounded product) are handed to mock_omaha_server::handle_request in-process: no panic, the client parser accepts the body (except the invalid kind), apps in request order with the configured decision, the ETag verifies with the client verifier for its own exchange and not for the sibling exchange; the real state machine with the real CUP handler runs two checks against the in-process mock for every response kind x forced ETag x CUP x URL, with a reconfiguration through /set_responses_by_appid between the checks.",
+         "Requests built by the client library (1-3 apps in every order, 5 service URLs with paths and queries, 4 key configurations x 0-2 server historical keys, parameters, cohorts, update-check and 4 event request kinds naming every non-empty subset of the apps, 5 configured response kinds per app; deviation-bounded product) are handed to mock_omaha_server::handle_request in-process: no panic, the client parser accepts the body (except the invalid kind), apps in request order with the configured decision, the ETag verifies with the client verifier for its own exchange and not for the sibling exchange; the real state machine with the real CUP handler runs three checks against the in-process mock for every response kind x forced ETag x CUP x URL, alone or next to a second app with its own decision (either order), with reconfigurations through /set_responses_by_appid before the second and third check.",
          "In-process transport (origin-form URI rewrite); requests are those the mock is configured to expect (its own assertions on version / updatedisabled / cohort are respected).", "3/C17"),
 }
 
